@@ -361,28 +361,29 @@ pub struct Binary;
 const NAMES: [&str; 6] = ["plain.slice", "with space.slice", "quo\"te.slice", "back\\slash.slice", "ünï 😀.slice", "tab\there.slice"];
 impl Family for Binary {
     fn name(&self) -> String {
-        "binary/6 file names x 8 program shapes (clean, warnings, errors, notes, missing file, duplicate file, directory, two files) x 12 configurations through the real slicec binary".into()
+        "binary/6 file names x 11 program shapes (clean, warnings, errors, notes, missing file, duplicate file, directory, two files, a generator that cannot be started, one that exits 1, a failing generator next to warnings) x 12 configurations through the real slicec binary".into()
     }
     fn len(&self) -> u64 {
-        6 * 8 * 12
+        6 * 11 * 12
     }
     fn hang_secs(&self) -> f64 {
         60.0
     }
     fn describe(&self, idx: u64) -> Value {
-        json!({"file_name": NAMES[(idx % 6) as usize], "shape": (idx / 6) % 8, "argv_options": config(idx / 48).argv()[1..].to_vec()})
+        json!({"file_name": NAMES[(idx % 6) as usize], "shape": (idx / 6) % 11, "argv_options": config(idx / 66).argv()[1..].to_vec()})
     }
     fn run(&self, idx: u64) -> CaseOut {
         let name = NAMES[(idx % 6) as usize];
-        let shape = (idx / 6) % 8;
-        let cfg = config(idx / 48);
+        let shape = (idx / 6) % 11;
+        let cfg = config(idx / 66);
         let mut out = CaseOut::new(hash_str(&format!("c14bin{idx}")));
         out.validated = 1;
         out.nontrivial = true;
         let mut sc = Scenario::default();
         let text = match shape {
             0 => "module M\nstruct S {}\n".to_string(),
-            1 => "module M\n[deprecated(\"q\\\"uote\")] struct D {}\nstruct U { d: D }\n/// {@link Nope}\nstruct L {}\n".to_string(),
+            1 | 10 => "module M\n[deprecated(\"q\\\"uote\")] struct D {}\nstruct U { d: D }\n/// {@link Nope}\nstruct L {}\n".to_string(),
+            8 | 9 => "module M\nstruct S {}\n".to_string(),
             2 => "module M\ncompact struct E {}\nstruct F { a: Nope }\n".to_string(),
             3 => "module M\nstruct A { b: B }\nstruct B { a: A }\n".to_string(),
             _ => "module M\n\t[deprecated] struct D {}\n\tstruct U { d: D? }\n".to_string(),
@@ -399,6 +400,17 @@ impl Family for Binary {
             7 => {
                 sc.tree.push(("other é.slice".into(), crate::proc::Node::File(b"module O\n/// @bogus\nstruct X { y: M::Nope }\n".to_vec())));
                 argv.push("other é.slice".into());
+            }
+            // diagnostics that come from the generator phase: they are shown, counted and decide the exit status too
+            8 => {
+                argv.push("-G".into());
+                argv.push("{work}/no such generator".into());
+            }
+            9 | 10 => {
+                use crate::proc::{encode_reply, Gen, Install, Script, Step};
+                sc.gens.push(Gen { name: "ok".into(), install: Install::Script(Script(vec![Step::ReadAll, Step::Stdout(encode_reply(&[], &[])), Step::Exit(0)])) });
+                sc.gens.push(Gen { name: "failing".into(), install: Install::Script(Script(vec![Step::ReadAll, Step::Exit(1)])) });
+                argv.extend(["-G".to_string(), "{gen0}".into(), "-G".into(), "{gen1}".into()]);
             }
             _ => {}
         }
@@ -462,11 +474,11 @@ impl Family for Binary {
             out.violate("c14/binary/exit-status", format!("exit status {code} with {errors} error(s) emitted\n{}", input()));
         }
         // expected presence per shape
-        let exp_err = matches!(shape, 2 | 3 | 4 | 6 | 7);
+        let exp_err = matches!(shape, 2 | 3 | 4 | 6 | 7 | 8 | 9 | 10);
         if exp_err != (errors > 0) {
             out.violate("c14/binary/expected-errors", format!("shape {shape}: errors expected {exp_err}, {errors} emitted\n{}", input()));
         }
-        let lintish = matches!(shape, 1 | 5) && cfg.allow != 2;
+        let lintish = matches!(shape, 1 | 5 | 10) && cfg.allow != 2;
         if lintish && warnings == 0 && !(shape == 5 && cfg.allow == 2) {
             out.violate("c14/binary/expected-warnings", format!("shape {shape}: warnings expected, none emitted\n{}", input()));
         }
